@@ -77,7 +77,9 @@ func NewDecimalFromInt[T constraints.Signed](i T) (Decimal, error) {
 // Decimal above those sizes, use the NewDecimal constructor.
 func NewDecimalFromFloat[T constraints.Float](f T) (Decimal, error) {
 	f = f * decimalPrecision
-	if f > math.MaxInt64 {
+	if math.IsNaN(float64(f)) {
+		return Decimal{}, fmt.Errorf("%w: value %v is not a number", errDecimal, f)
+	} else if f >= math.MaxInt64 { // the constant rounds up to 2^63, which is itself out of range
 		return Decimal{}, fmt.Errorf("%w: value %v would overflow", errDecimal, f)
 	} else if f < math.MinInt64 {
 		return Decimal{}, fmt.Errorf("%w: value %v would underflow", errDecimal, f)
